@@ -12,6 +12,7 @@ import (
 
 	"github.com/virus-evolution/gofasta/pkg/encoding"
 	"github.com/virus-evolution/gofasta/pkg/fastaio"
+	"github.com/virus-evolution/gofasta/pkg/vhook"
 )
 
 // getAmbArr parses the ambiguities field from one line of the output of gofasta updown list to an array of
@@ -346,6 +347,7 @@ func reorderRecords(cIn, cOut chan updownLine, cReorderDone chan bool) {
 	counter := 0
 
 	for input := range cIn {
+		vhook.Recv("updown.reorderRecords", input.idx)
 		reorderMap[input.idx] = input
 		if output, ok := reorderMap[counter]; ok {
 
@@ -456,6 +458,7 @@ func getLines(refSeq []byte, cFR chan fastaio.EncodedFastaRecord, cUDs chan updo
 		udLine.ambCount = ambCount
 		udLine.snpsSorted = snpsSorted
 
+		vhook.Ready("updown.getLines", FR.Idx)
 		cUDs <- udLine
 	}
 
